@@ -2,7 +2,7 @@
 import json
 import os
 
-from .lib import cbool, clist, coq_mismatches, HarnessError
+from .lib import cbool, clist, cn, coq_mismatches, HarnessError
 
 LEVEL = "proof"
 META = {
@@ -12,7 +12,7 @@ META = {
     "technique": "Coq proof over executable model + exhaustive differential correspondence (vm_compute) + independent Go and CPython oracles",
 }
 
-HEADER = """From Coq Require Import String List Bool Arith.
+HEADER = """From Coq Require Import String List Bool Arith NArith.
 From SV Require Import C08.Types C08.Model C08.Spec.
 Import ListNotations.
 Open Scope string_scope.
@@ -20,28 +20,34 @@ Definition opt_eqb {A} (f : A -> A -> bool) (a b : option A) : bool :=
   match a, b with Some x, Some y => f x y | None, None => true | _, _ => false end.
 Fixpoint list_eqb {A} (f : A -> A -> bool) (a b : list A) : bool :=
   match a, b with [] , [] => true | x :: r, y :: s => f x y && list_eqb f r s | _, _ => false end.
-Definition kv_eqb (a b : string * nat) : bool := String.eqb (fst a) (fst b) && Nat.eqb (snd a) (snd b).
-Definition bound_eqb (a b : bound nat) : bool :=
+Definition kv_eqb (a b : string * N) : bool := String.eqb (fst a) (fst b) && N.eqb (snd a) (snd b).
+Definition bound_eqb (a b : bound N) : bool :=
   match a, b with
-  | BVal x, BVal y => Nat.eqb x y
-  | BTuple x, BTuple y => list_eqb Nat.eqb x y
+  | BVal x, BVal y => N.eqb x y
+  | BTuple x, BTuple y => list_eqb N.eqb x y
   | BDict x, BDict y => list_eqb kv_eqb x y
   | _, _ => false
   end.
-Definition obs := result (list (option (bound nat))).
+Definition obs := result (list (option (bound N))).
 Definition res_eqb (a b : obs) : bool :=
   match a, b with
   | Ok x, Ok y => list_eqb (opt_eqb bound_eqb) x y
   | Err e, Err f => err_eqb e f
   | _, _ => false
   end.
-Definition case := (signature nat * call nat * obs)%type.
+Definition case := (signature N * call N * obs)%type.
+(* a monomorphic constructor keeps elaboration of the case list cheap *)
+Definition C (req : list string) (opt : list (string * N)) (star : star_kind)
+  (kwonly : list (string * option N)) (kwargs : option string)
+  (pos : list N) (named : list (string * N)) (st : option (star_arg N))
+  (ds : option (dstar_arg N)) (o : obs) : case :=
+  (@Build_signature N req opt star kwonly kwargs, @Build_call N pos named st ds, o).
 (* correspondence: layout + flatten + setArgs reproduce what the interpreter did *)
 Definition model_ok (c : case) : bool :=
   let '(s, cl, o) := c in res_eqb (call_observe (layout s) cl) o.
 (* oracle: the interpreter did what the specification says.  "accepts no
    arguments" is split by what was surplus, without consulting the model. *)
-Definition coarse_obs (cl : call nat) (o : obs) : obs :=
+Definition coarse_obs (cl : call N) (o : obs) : obs :=
   match o with
   | Err EAcceptsNoArgs =>
       match positional_args cl with
@@ -59,36 +65,51 @@ ERR = {"toomany": "ETooManyPositional", "unexpected": "EUnexpectedKeyword", "mul
        "noargs": "EAcceptsNoArgs"}
 
 
+def par_mismatches(ctx, name, header, terms, fns, shard=400, workers=10):
+    """coq_mismatches over shards evaluated by parallel coqc processes
+    (elaborating the case list dominates; the evaluation itself is instant)."""
+    import concurrent.futures as cf
+    bad = [[] for _ in fns]
+    chunks = [(k, terms[k:k + shard]) for k in range(0, len(terms), shard)]
+    with cf.ThreadPoolExecutor(max_workers=workers) as ex:
+        futs = {ex.submit(coq_mismatches, ctx, "%s_%d" % (name, k), header, ch, fns, len(ch)): k for k, ch in chunks}
+        for fu in cf.as_completed(futs):
+            k = futs[fu]
+            for j, idxs in enumerate(fu.result()):
+                bad[j].extend(k + i for i in idxs)
+    return [sorted(b) for b in bad]
+
+
 def cstr(s):
     return '"%s"' % s
 
 
 def coq_sig(s):
     star = {"none": "StarNone", "bare": "StarBare", "args": '(StarArgs "args")'}[s["star"]]
-    return ("{| sg_req := %s; sg_opt := %s; sg_star := %s; sg_kwonly := %s; sg_kwargs := %s |}" % (
+    return ("%s %s %s %s %s" % (
         clist([cstr(x) for x in s["req"]]),
-        clist(["(%s, %d)" % (cstr(n), d) for n, d in s["opt"]]),
+        clist(["(%s, %s)" % (cstr(n), cn(d)) for n, d in s["opt"]]),
         star,
-        clist(["(%s, %s)" % (cstr(n), "None" if d is None else "Some %d" % d) for n, d in s["kwonly"]]),
-        'Some "kw"' if s["kwargs"] else "None"))
+        clist(["(%s, %s)" % (cstr(n), "None" if d is None else "Some %s" % cn(d)) for n, d in s["kwonly"]]),
+        '(Some "kw")' if s["kwargs"] else "None"))
 
 
 def coq_call(c):
     if c["star"] is None:
         star = "None"
     elif c["star"].get("bad"):
-        star = "Some NotIterable"
+        star = "(Some NotIterable)"
     else:
-        star = "Some (SeqOk %s)" % clist([str(x) for x in c["star"]["seq"]])
+        star = "(Some (SeqOk %s))" % clist([cn(x) for x in c["star"]["seq"]])
     if c["dstar"] is None:
         ds = "None"
     elif c["dstar"].get("bad"):
-        ds = "Some NotMapping"
+        ds = "(Some NotMapping)"
     else:
-        ds = "Some (MapOk %s)" % clist(["(%s, %d)" % ("KStr " + cstr(k) if isstr else "KOther 1", v)
+        ds = "(Some (MapOk %s))" % clist(["(%s, %s)" % ("KStr " + cstr(k) if isstr else "KOther 1", cn(v))
                                         for k, isstr, v in c["dstar"]["items"]])
-    return "{| c_pos := %s; c_named := %s; c_star := %s; c_dstar := %s |}" % (
-        clist([str(x) for x in c["pos"]]), clist(["(%s, %d)" % (cstr(k), v) for k, v in c["named"]]), star, ds)
+    return "%s %s %s %s" % (
+        clist([cn(x) for x in c["pos"]]), clist(["(%s, %s)" % (cstr(k), cn(v)) for k, v in c["named"]]), star, ds)
 
 
 def coq_obs(o):
@@ -98,11 +119,11 @@ def coq_obs(o):
     items = []
     for b in o["ok"]:
         if "v" in b:
-            items.append("Some (BVal %d)" % b["v"])
+            items.append("Some (BVal %s)" % cn(b["v"]))
         elif "t" in b:
-            items.append("Some (BTuple %s)" % clist([str(x) for x in b["t"]]))
+            items.append("Some (BTuple %s)" % clist([cn(x) for x in b["t"]]))
         else:
-            items.append("Some (BDict %s)" % clist(["(%s, %d)" % (cstr(k), v) for k, v in b["d"]]))
+            items.append("Some (BDict %s)" % clist(["(%s, %s)" % (cstr(k), cn(v)) for k, v in b["d"]]))
     return "(Ok %s)" % clist(items)
 
 
@@ -175,7 +196,7 @@ def run_bind(ctx):
     hx = ctx.go_build("c08")
     quick = ctx.quick()
     cmd = [hx, "bind", "-seed", str(ctx.seed), "-frac", "0.05" if quick else "1",
-           "-coq", "3000" if quick else "24000", "-py", "15000" if quick else "200000"]
+           "-coq", "800" if quick else "8000", "-py", "8000" if quick else "150000"]
     rows = ctx.jsonl(cmd, timeout=1500)
     summary = [r for r in rows if r.get("kind") == "summary"][0]
     cases = [r for r in rows if r.get("kind") in ("case", "mismatch")]
@@ -194,9 +215,9 @@ def run_bind(ctx):
         if o is None:
             ctx.finding("bind:other-error:" + call_class(c), "%s ; %s fails with an error outside the binding classes: %s" % (c["def"], c["src"], c["obs"]), c)
             continue
-        terms.append("(%s, %s, %s)" % (coq_sig(c["sig"]), coq_call(c["call"]), o))
+        terms.append("(C %s %s %s)" % (coq_sig(c["sig"]), coq_call(c["call"]), o))
         refs.append(c)
-    bad_model, bad_spec = coq_mismatches(ctx, "c08_bind", HEADER, terms, ["model_ok", "spec_ok"], shard=4000)
+    bad_model, bad_spec = par_mismatches(ctx, "c08_bind", HEADER, terms, ["model_ok", "spec_ok"])
     for i in bad_spec:
         c = refs[i]
         if c["kind"] == "mismatch":
